@@ -9,6 +9,7 @@ from ..rules import lint, defs, dsp, exa, fmt, nul, shape
 from . import common
 
 EXPLANATION = (
+  "(KEEP-text) handle_data has no exit that depends on the content of the text and stores the text itself; "
   "Decides, for every SRT input, these clauses: (EXA) cue begin/end reach the model as exact rationals - no binary float built by the "
   "reader's arithmetic reaches set_begin/set_end; (DEF) no reader state (e.g. the accumulated cue text) is read before it is "
   "assigned on some path, which is what a cue without text exercises; (NUL) an unmatched end tag cannot move the parser's "
@@ -214,6 +215,7 @@ def check_time_expressions(ctx):
 
 def run(ctx):
   common.check_shared_helpers(ctx, color=True, text=True)
+  ctx.floor("KEEP-text", "cue text handlers", common.check_text_handlers(ctx, ["ttconv.srt.reader:_TextParser.handle_data"]), 1)
   ix = ctx.ix
   fs = common.funcs(ctx, ["ttconv.srt.reader"])
   n = exa.check_exactness(ctx, fs, rule="EXA", exempt=common.EXA_EXEMPT, trunc_scope=common.time_trunc_scope(ctx))
